@@ -40,7 +40,7 @@ def _one(job):
 def run_strings(ctx, rep, plan=None):
     from ..common import import_pvl
     import_pvl()
-    plan = plan or ([("core", 5), ("ext", 4), ("num", 4)] if ctx.thorough else [("core", 4), ("ext", 3), ("num", 3)])
+    plan = plan or ([("core", 5), ("ext", 4), ("num", 4), ("cmt", 6)] if ctx.thorough else [("core", 4), ("ext", 3), ("num", 3), ("cmt", 5)])
     fails = []
     for sigma, maxlen in plan:
         cases = emit(ctx, rep, sigma, maxlen)
